@@ -266,6 +266,20 @@ class Yields(Sym):
         return self
 
 
+def trim_loops(get_base):
+    """invariants of the scanning loops of trim_start / trim_end (attached by loop header text)"""
+    def inv_start(cx, env):
+        me = env.lookup('self')
+        p = zint(env.lookup('start'))
+        return z3.And(me.a <= p, p <= me.b, qforall(1, lambda k: z3.Implies(z3.And(me.a <= k, k < p), get_base().sel(k) == 32)))
+
+    def inv_end(cx, env):
+        me = env.lookup('self')
+        p = zint(env.lookup('stop'))
+        return z3.And(me.a <= p, p <= me.b, qforall(1, lambda k: z3.Implies(z3.And(p <= k, k < me.b), get_base().sel(k) == 32)))
+    return {'trim-start': Loop(inv_start, label='scan-start', match='while start <'), 'trim-end': Loop(inv_end, label='scan-end', match='while stop >')}
+
+
 class Split(Contract):
     """split / isplit (generators, any number of pieces): loop invariant over the ghost sequence of yielded pieces; `_find` by contract."""
     prop = PROP
@@ -282,6 +296,7 @@ class Split(Contract):
         def on_havoc(cx, env):
             env.lookup('__yields__').havoc(cx, 'yielded')
         self.loops = {0: Loop(inv, label='pieces', match='while n', on_havoc=on_havoc)}
+        self.loops.update(trim_loops(lambda: self.S.W.base))  # only used if the body is changed to call trim_*
 
     def facts(self, Y, c):
         """facts about the first c yielded pieces"""
@@ -365,16 +380,7 @@ class Trim(Contract):
     fn = MOD + ':_Substring.trim'
 
     def __init__(self):
-        def inv_start(cx, env):
-            me = env.lookup('self')
-            p = zint(env.lookup('start'))
-            return z3.And(me.a <= p, p <= me.b, qforall(1, lambda k: z3.Implies(z3.And(me.a <= k, k < p), self.S.W.base.sel(k) == 32)))
-
-        def inv_end(cx, env):
-            me = env.lookup('self')
-            p = zint(env.lookup('stop'))
-            return z3.And(me.a <= p, p <= me.b, qforall(1, lambda k: z3.Implies(z3.And(p <= k, k < me.b), self.S.W.base.sel(k) == 32)))
-        self.loops = {0: Loop(inv_start, label='scan-start', match='while start <'), 1: Loop(inv_end, label='scan-end', match='while stop >')}
+        self.loops = trim_loops(lambda: self.S.W.base)
 
     def setup(self, cx):
         W = World(cx)
